@@ -87,10 +87,24 @@ GraphUnitFiles ==
    cyclic |-> Cyclic,
    docs |-> SetToSeq({JObj(<<KV("a", sub)>>) : sub \in DocsAt("A", Depth)})]
 
+\* ... and with the document of A itself as the argument of the run, spelled non-canonically (g/./a.json): when a cycle
+\* of file references leads back to it, it must be recognised as the document the run started from
+GraphUnitRooted ==
+  [prop |-> "C10", kind |-> "filegraphroot", ndefs |-> NDefs, wrap |-> FALSE,
+   rootpath |-> <<"g", ".", "a.json">>, roottype |-> "AJson", exts |-> <<>>, ldefs |-> <<>>, strip |-> <<>>,
+   schema |-> FileSchema("A"),
+   defs |-> [i \in 1..NDefs |-> [k |-> Order[i], s |-> FileSchema(Order[i])]], envonly |-> TRUE,
+   files |-> [i \in 1..(NDefs - 1) |-> [path |-> <<"g", Lower(Order[i + 1]) \o ".json">>, name |-> Order[i + 1], s |-> FileSchema(Order[i + 1]), defs |-> <<>>, yaml |-> FALSE]],
+   gonames |-> [i \in 1..NDefs |-> [k |-> Order[i] \o "Json", reach |-> Order[i] \in ReachFrom({"A"})]],
+   edges |-> [i \in 1..NDefs |-> [k |-> Order[i], e |-> Edge[Order[i]]]],
+   cyclic |-> Cyclic,
+   docs |-> SetToSeq(DocsAt("A", Depth))]
+
 DesignOK == StepsBounded /\ OncePerDef /\ AllDeclared /\ ScopeEmpty
 AsIsOK == TRUE
 Init == GInit
 Next == GNext
 Spec == GSpec
-Emit == Finished => (UnitsFile = "" \/ (PrintT("UNIT " \o ToJson(GraphUnit)) /\ PrintT("UNIT " \o ToJson(GraphUnitFiles))))
+Emit == Finished => (UnitsFile = "" \/ (PrintT("UNIT " \o ToJson(GraphUnit)) /\ PrintT("UNIT " \o ToJson(GraphUnitFiles))
+                                         /\ PrintT("UNIT " \o ToJson(GraphUnitRooted))))
 =============================================================================
